@@ -22,6 +22,12 @@ MAX_PHASE_B = 400
 
 def _z3_try(smt2, timeout_ms, seed, deterministic=False):
     import z3
+    # NOTE (DESIGN II.4, third occurrence): this solver lives in the z3 context the pool worker inherited by fork, so the numbering of the terms - and
+    # with it z3's search - depends on what the worker solved before: the same VC text cost 0.27 M resource units in a clean context and 2.0 M after
+    # unrelated terms had been made.  `rlimit` makes an attempt independent of the LOAD, not of that history.  A context of its own per attempt
+    # (z3.Context()) would make the verdict reproducible, but measured on the whole suite it leaves 19 div/mod VCs of the pipeline concatenation
+    # lemma open that the shared context closes, so the z3 attempts stay what they were - fast paths - and the VCs that were seen to flip are
+    # closed by the history-independent back end in pyvc/ginst.py (phase B, first step; it works in a context of its own).
     s = z3.Solver()
     if deterministic:
         s.set("rlimit", int(timeout_ms / 1000.0 * Z3_RLIMIT_PER_S))
@@ -78,7 +84,8 @@ def _solve_one(job):
     """One phase of the portfolio for one VC.  z3 is unstable on identical input (sequence solver; quantified array VCs are solved in seconds
     under one random seed and not at all under another), so the schedule is, in three phases:
       A  z3 seed 0 (wall-clock)                                                      - settles almost everything
-      B  cvc5 (short; strings: its full budget) then z3 seeds 1..3 (wall-clock)      - for what A left open
+      B  cvc5 (short; strings: its full budget); non-string VCs: finite ground instantiation + quantifier-free z3 (no seed, a context
+         of its own: pyvc/ginst.py); then z3 seeds 1..3 (wall-clock)                 - for what A left open
       C  cvc5 with its full CPU budget, then z3 under six seeds with `rlimit`        - load-independent tail for what B left open
     Only `unsat` discharges, only `sat` refutes; everything else stays `unknown`."""
     idx, smt2, use_cvc5, strings, quick, phase = job
@@ -114,12 +121,34 @@ def _solve_one(job):
             info += " | cvc5 error " + repr(e)
         return False
 
+    def ginst_stage(seconds=20):
+        # deterministic finite instantiation (pyvc/ginst.py): no seed, one quantifier-free solver call per round under `rlimit`
+        nonlocal res, info, backend
+        if strings or not use_cvc5:
+            return False
+        try:
+            from . import ginst
+            r, why = ginst.solve(smt2, rlimit=int(seconds * Z3_RLIMIT_PER_S), timeout_ms=seconds * 1000 * 3)
+        except Exception as e:  # noqa
+            r, why = "unknown", "ginst error " + repr(e)
+        if r == "unsat":
+            res, backend, info = "unsat", "ginst+z3-5.1.0", ""
+            return True
+        info += " | " + why[:160]
+        return False
+
     if phase == "A":
         # non-string VCs: the first attempt is already load-independent (rlimit; wall-clock backstop at five times the budget), so that a busy
         # machine does not turn dozens of easy VCs into "open" ones that then compete for the later phases
-        z3_stage([0], 5000 if quick else (15000 if use_cvc5 else Z3_TIMEOUT_MS), deterministic=not strings and not quick)
+        # VERIF_PHASE_A_SEED: developer knob for stress tests only (an "unlucky history" for phase A); unset in every registered command
+        z3_stage([int(os.environ.get("VERIF_PHASE_A_SEED", "0"))], 5000 if quick else (15000 if use_cvc5 else Z3_TIMEOUT_MS),
+                 deterministic=not strings and not quick)
     elif phase == "B":
-        cvc5_stage(30 if strings else 10) or z3_stage([1, 2] if strings else [1, 2, 3], 10000)
+        # cvc5 first: 10 CPU-s at most, and it closes the nonlinear sector-arithmetic VCs (C15, C08) at once, on which the quantifier-free call of the
+        # instantiation back end only runs into its backstop
+        # VERIF_NO_CVC5_IN_B: developer knob for stress tests only (does the instantiation back end close what cvc5 usually closes?)
+        (not os.environ.get("VERIF_NO_CVC5_IN_B") and cvc5_stage(30 if strings else 10)) or ginst_stage() or \
+            z3_stage([1, 2] if strings else [1, 2, 3], 10000)
     elif strings:
         # string VCs: z3's resource counter advances slowly in the sequence solver (the wall-clock backstop would be what ends each attempt),
         # and cvc5 has had its say in phase B: three short deterministic attempts only
